@@ -67,15 +67,14 @@ Proof. destruct d; cbn; [reflexivity | apply N.eqb_refl]. Qed.
 
 Lemma find_identical (a : ety) (p : param) :
   e_scalar _ a = p_scalar _ p -> e_dim _ a = p_dim _ p ->
-  (p_out _ p = true -> e_lvalue _ a = true /\ (e_const _ a = true -> p_const _ p = true)) ->
+  (p_out _ p = true -> e_lvalue _ a = true /\ e_const _ a = false) ->
   find a (param_ety p) = Some (NR_Exact, VR_Exact).
 Proof.
   intros Hs Hd Ho. unfold Overload.find, Overload.dim_cast, Overload.param_ety. cbn [e_scalar e_dim e_lvalue e_const].
   rewrite <- Hs, <- Hd. assert (E : scalar_eqb (e_scalar _ a) (e_scalar _ a) = true) by (apply scalar_eqb_spec; reflexivity).
   rewrite E, dim_eqb_refl. cbn [andb].
   destruct (p_out _ p) eqn:Po.
-  - destruct (Ho eq_refl) as [Hl Hc]. rewrite Hl. cbn [negb andb].
-    destruct (e_const _ a) eqn:Ca; [rewrite (Hc eq_refl); reflexivity | reflexivity].
+  - destruct (Ho eq_refl) as [Hl Hc]. rewrite Hl, Hc. cbn [negb andb]. reflexivity.
   - rewrite andb_false_r. cbn [andb]. reflexivity.
 Qed.
 
